@@ -187,4 +187,18 @@ theorem encPure_abs {c : Cfg} (hc : RValid c) {e : Encoder} (hI : Inv c e) {cum 
   · simp only [hlt, if_true]
   · simp only [hlt, if_false]
 
+/-- one symbol uses up at most one unit of the `usize` head-room -/
+theorem encPure_fits {c : Cfg} (hc : RValid c) {e : Encoder} (hI : Inv c e) {cum p k : Nat}
+    (hp : 0 < p) (hcp : cum + p ≤ 2^c.P) (hf : Fits c e (k + 1)) :
+    Fits c (encPure c e cum p) k := by
+  have habs := encPure_abs hc hI hp hcp
+  have hm : (absE c (encPure c e cum p)).m ≤ (absE c e).m + 1 := by
+    rw [habs]; unfold step; simp only; split <;> simp
+  simp only [absE, heldCount] at hm
+  unfold Fits at hf ⊢
+  have : c.W * ((encPure c e cum p).bulk.length + (encPure c e cum p).situation.held + k + 2)
+      ≤ c.W * (e.bulk.length + e.situation.held + (k + 1) + 2) :=
+    Nat.mul_le_mul_left _ (by omega)
+  omega
+
 end CV.Range
